@@ -77,7 +77,7 @@ fn c06_create_df5() {
     vassert!(p.squawk == Some(id13_squawk(&m)), "C06: created row's squawk is not the identity code");
 }
 
-// @harness props=C06,C11 tier=quick cap=1500 mem=24
+// @harness props=C06,C11:thorough tier=quick cap=1500 mem=24
 // row step: any DF21 frame on an arbitrary row, capability, BDS 1,7 flags and -R symbolic (the whole
 // MB decoder runs; callsign construction stubbed by a marker): squawk is the frame's code
 #[cfg_attr(kani, kani::proof)]
